@@ -7,8 +7,11 @@ import time
 
 from .boot import VERIF
 
-EVIDENCE_DIR = os.path.join(VERIF, 'evidence')
-REPLAY_DIR = os.path.join(VERIF, 'replays')
+# VERIF_OUT redirects evidence/replays (used when checks are pointed at a scratch copy via VERIF_REPO, so that
+# the committed evidence always stems from /repo itself)
+_OUT = os.environ.get('VERIF_OUT') or VERIF
+EVIDENCE_DIR = os.path.join(_OUT, 'evidence')
+REPLAY_DIR = os.path.join(_OUT, 'replays')
 KNOWN_FILE = os.path.join(VERIF, 'known_findings.json')
 MAX_REPLAYS = 12  # replay files written per run (further violations are only counted)
 
